@@ -264,9 +264,15 @@ fn run(args: &Args, rep: &mut Report) {
         "text + G-SGR only, 0..10 items (dense in attribute interactions)",
         prop_par("sgr-only-streams", args.seed, tier.pick(40_000, 1_500_000), mk(cfg), check_case, case_json),
     );
+    if args.tier == vcore::rt::Tier::Thorough {
+        checks::fuzzrun::campaign(rep, args, "sgr", 300000, checks::oracle::fuzz_sgr);
+    }
 }
 
 fn replay(sub: &str, case: &Value) -> Result<(), String> {
+    if sub.starts_with("libfuzzer-") {
+        return checks::oracle::fuzz_sgr(&vcore::drive::case_bytes(case));
+    }
     let bytes = vcore::drive::case_bytes(case);
     if sub == "exhaustive-groups" {
         if let Some(gs) = case.get("groups").and_then(|g| g.as_array()) {
